@@ -126,7 +126,7 @@ func (m *mon) suvLatin(a *acc, idx int) {
 	for i := range batch {
 		batch[i] = math.NaN()
 	}
-	sampleuv.LatinHypercube{Q: q, Src: m.c.RNG("suv.lhs", idx)}.Sample(batch)
+	sampleuv.LatinHypercube{Q: q, Src: m.src("suv.lhs", idx)}.Sample(batch)
 	a.eval("sampleuv.LatinHypercube.Sample|"+kind, 1)
 	u := make([]float64, n)
 	for i, x := range batch {
